@@ -115,9 +115,77 @@ def abstract_infeasible(eng: Any, cond: Any) -> bool:
     return _ABS_CACHE[key]
 
 
+_CMP = re.compile(r"^\((<=|>=|<|>) (\S+) (\d+)\)$")
+
+
+def quick_infeasible(eng: Any, cond: Any) -> bool:
+    """Solver-free interval reasoning for the common shape `n <cmp> k` (n a symbolic length): bounds of n are read off
+    the path condition (`(>= n k)`, `(not (<= n k))`, `(= (>= n k) ATOM)` with ATOM / (not ATOM) on the path ...).
+    True only when cond certainly contradicts them; anything unrecognised is simply not used (sound for pruning)."""
+    sx = cond.sx
+    neg = False
+    if sx.startswith("(not ") and sx.endswith(")"):
+        sx, neg = sx[5:-1], True
+    m = _CMP.match(sx)
+    if not m:
+        return False
+    op, var, k = m.group(1), m.group(2), int(m.group(3))
+    if neg:
+        op, k = {"<=": (">=", k + 1), "<": (">=", k), ">=": ("<=", k - 1), ">": ("<=", k)}[op]
+    elif op == "<":
+        op, k = "<=", k - 1
+    elif op == ">":
+        op, k = ">=", k + 1
+    lo, hi = None, None
+    texts = [c.sx for c in eng.pc if is_sym(c)]
+    have = set(texts)
+
+    def upd(o: str, kk: int) -> None:
+        nonlocal lo, hi
+        if o == ">=":
+            lo = kk if lo is None else max(lo, kk)
+        else:
+            hi = kk if hi is None else min(hi, kk)
+
+    def norm(o: str, kk: int, negated: bool) -> Tuple[str, int]:
+        if negated:
+            return {"<=": (">=", kk + 1), "<": (">=", kk), ">=": ("<=", kk - 1), ">": ("<=", kk)}[o]
+        return {"<=": ("<=", kk), "<": ("<=", kk - 1), ">=": (">=", kk), ">": (">=", kk + 1)}[o]
+    for t in texts:
+        negated = t.startswith("(not ") and t.endswith(")")
+        body = t[5:-1] if negated else t
+        mm = _CMP.match(body)
+        if mm and mm.group(2) == var:
+            upd(*norm(mm.group(1), int(mm.group(3)), negated))
+            continue
+        if not negated and t.startswith("(= (") and t.endswith(")"):
+            # (= (>= n k) ATOM)
+            inner = t[3:-1]
+            depth, cut = 0, None
+            for i, ch in enumerate(inner):
+                depth += ch == "("
+                depth -= ch == ")"
+                if depth == 0:
+                    cut = i + 1
+                    break
+            if cut is None:
+                continue
+            left, atom = inner[:cut], inner[cut:].strip()
+            mm = _CMP.match(left)
+            if mm and mm.group(2) == var:
+                if atom in have:
+                    upd(*norm(mm.group(1), int(mm.group(3)), False))
+                elif f"(not {atom})" in have:
+                    upd(*norm(mm.group(1), int(mm.group(3)), True))
+    if op == "<=":
+        return lo is not None and lo > k
+    return hi is not None and hi < k
+
+
 def decide_pruned(eng: Any, cond: Any) -> bool:
     """eng.decide with solver pruning switched on for this one decision (an infeasible side is not explored):
-    first in the string-atom abstraction (deterministic), then - only if both sides survive - with the full query."""
+    first solver-free interval reasoning, then the string-atom abstraction (both deterministic), then - only if both
+    sides survive - the full query."""
     if not is_sym(cond):
         return bool(cond)
     old_prune = eng.prune
@@ -126,7 +194,7 @@ def decide_pruned(eng: Any, cond: Any) -> bool:
     def feasible(c: Any) -> bool:
         if not is_sym(c):
             return bool(c)
-        if abstract_infeasible(eng, c):
+        if quick_infeasible(eng, c) or abstract_infeasible(eng, c):
             return False
         return bool(full(c))
     eng.prune = True
